@@ -1,1 +1,457 @@
-/-! # C08 — property theorems (stub) -/
+import Okane.Lemmas.Expr
+import Okane.Model.ExprSyntax
+/-!
+# C08 — value expressions evaluate as ordinary arithmetic with commodity typing
+
+Model: `Okane.evalRo` / `Okane.evalMut` (`report/eval.rs`), `Okane.Evaluated.check*` (`eval/evaluated.rs`),
+`Okane.Amount` (`eval/amount.rs`).  Statement: `Okane.Spec` (`Spec/Expr.lean`): grammar-stratified trees and
+their denotation into numbers / commodity-indexed families of exact rationals.
+-/
+namespace Okane.C08
+open Okane Okane.Spec
+
+/-- outcome of the model evaluator vs outcome of the reference denotation -/
+def CorrV : Outcome EvalErr (Evaluated String) → Outcome EvalErr RVal → Prop
+  | .ok x, .ok y => Rel x y
+  | .err e, .err e' => e = e'
+  | _, _ => False
+
+/-- the same with the commodity store threaded through (`I` = what stays true of the store) -/
+def CorrL (I : Store → Prop) : Outcome EvalErr (Evaluated String × Store) → Outcome EvalErr RVal → Prop
+  | .ok (x, s'), .ok y => I s' ∧ Rel x y
+  | .err e, .err e' => e = e'
+  | _, _ => False
+
+/-! ## The four operators and negation compute the reference operations -/
+
+theorem negate_corr {x : Evaluated String} {y : RVal} (h : Rel x y) : Rel x.negate y.neg := by
+  cases x <;> cases y <;> simp only [Rel] at h ⊢
+  · simp [Evaluated.negate, RVal.neg, Rel, h]
+  · simp only [Evaluated.negate, RVal.neg, Rel, Amount.neg]
+    exact relAmt_mapVals (fun v => -v) (by simp) h
+
+theorem checkAdd_corr {lv rv : Evaluated String} {L R : RVal} (hl : Rel lv L) (hr : Rel rv R) :
+    CorrV (lv.checkAdd rv) (L.add R) := by
+  cases lv <;> cases rv <;> cases L <;> cases R <;> simp only [Rel] at hl hr <;>
+    simp only [Evaluated.checkAdd, RVal.add, CorrV, Rel]
+  · rw [hl, hr]
+  · exact relAmt_add hl hr
+
+theorem checkSub_corr {lv rv : Evaluated String} {L R : RVal} (hl : Rel lv L) (hr : Rel rv R) :
+    CorrV (lv.checkSub rv) (L.sub R) := by
+  cases lv <;> cases rv <;> cases L <;> cases R <;> simp only [Rel] at hl hr <;>
+    simp only [Evaluated.checkSub, RVal.sub, CorrV, Rel]
+  · rw [hl, hr]
+  · exact relAmt_sub hl hr
+
+theorem checkMul_corr {lv rv : Evaluated String} {L R : RVal} (hl : Rel lv L) (hr : Rel rv R) :
+    CorrV (lv.checkMul rv) (L.mul R) := by
+  cases lv <;> cases rv <;> cases L <;> cases R <;> simp only [Rel] at hl hr <;>
+    simp only [Evaluated.checkMul, RVal.mul, CorrV, Rel]
+  · rw [hl, hr]
+  · subst hl
+    exact relAmt_mapVals (fun v => v * _) (by simp [Rat.zero_mul]) hr
+  · subst hr
+    exact relAmt_mapVals (fun v => v * _) (by simp [Rat.zero_mul]) hl
+
+theorem isZero_corr {x : Evaluated String} {y : RVal} (h : Rel x y) : x.isZero = y.isZero := by
+  cases x <;> cases y <;> simp only [Rel] at h
+  · simp [Evaluated.isZero, RVal.isZero, h]
+  · simp only [Evaluated.isZero]
+    exact relAmt_isZero h
+
+theorem checkDiv_corr {lv rv : Evaluated String} {L R : RVal} (hl : Rel lv L) (hr : Rel rv R) :
+    CorrV (lv.checkDiv rv) (L.div R) := by
+  unfold Evaluated.checkDiv RVal.div
+  rw [isZero_corr hr]
+  by_cases hz : R.isZero = true
+  · simp [hz, CorrV]
+  · simp only [hz, Bool.false_eq_true, if_false]
+    cases lv <;> cases rv <;> cases L <;> cases R <;> simp only [Rel] at hl hr <;>
+      simp only [CorrV, Rel]
+    · -- number / number
+      rw [hl, hr]
+    · -- number / commodities
+      rename_i x y x' ks f
+      subst hl
+      have hs := relAmt_toSingle hr
+      cases hsk : RVal.single? ks with
+      | none =>
+        rw [hsk] at hs
+        simp only at hs
+        simp [hs, CorrV]
+      | some k =>
+        rw [hsk] at hs
+        simp only at hs
+        obtain ⟨hmem, hall⟩ := single?_some hsk
+        have hne : f k ≠ 0 := by
+          intro h0
+          apply hz
+          simp only [RVal.isZero, List.all_eq_true, beq_iff_eq]
+          intro c hc
+          rw [hall c hc, h0]
+        simp only [hs, SingleAmount.checkDiv, hne, if_false, Outcome.map', CorrV, Rel]
+        refine ⟨by simp [AMap.WF, AMap.keys], by intro c; simp [AMap.keys], ?_⟩
+        intro c
+        rw [getPart_cons, getPart_nil]
+        by_cases h : k = c
+        · subst h; simp
+        · simp [h, Ne.symm h]
+    · -- commodities / number
+      rename_i a y ks f y'
+      subst hr
+      have hy : y ≠ 0 := by
+        intro h0; apply hz; simp [RVal.isZero, h0]
+      simp only [Amount.checkDiv, hy, if_false, Outcome.map', CorrV, Rel]
+      exact relAmt_mapVals (fun v => v / y) (by simp [Rat.div_def]) hl
+
+/-- the reference operation behind each `BinaryOp` -/
+def refOp : BinOp → RVal → RVal → Outcome EvalErr RVal
+  | .add => RVal.add
+  | .sub => RVal.sub
+  | .mul => RVal.mul
+  | .div => RVal.div
+
+theorem applyBin_corr (op : BinOp) {lv rv : Evaluated String} {L R : RVal} (hl : Rel lv L) (hr : Rel rv R) :
+    CorrV (applyBin op lv rv) (refOp op L R) := by
+  cases op <;> simp only [applyBin, refOp]
+  · exact checkAdd_corr hl hr
+  · exact checkSub_corr hl hr
+  · exact checkMul_corr hl hr
+  · exact checkDiv_corr hl hr
+
+/-! ## The evaluator computes the denotation (any leaf function that respects the store invariant) -/
+
+section
+variable (leaf : Store → PDec → String → Outcome EvalErr (Evaluated String × Store))
+variable (ρ : String → Option String) (I : Store → Prop)
+
+theorem bin_corr (op : BinOp) (el er : Expr) (dl dr : Outcome EvalErr RVal) (s : Store)
+    (hl : CorrL I (evalExprWith leaf s el) dl)
+    (hr : ∀ s1, I s1 → CorrL I (evalExprWith leaf s1 er) dr) :
+    CorrL I (evalExprWith leaf s (.bin op el er)) (bind2 dl dr (refOp op)) := by
+  rw [evalExprWith]
+  cases h1 : evalExprWith leaf s el with
+  | ok p =>
+    obtain ⟨lv, s1⟩ := p
+    rw [h1] at hl
+    cases dl with
+    | ok L =>
+      simp only [CorrL] at hl
+      have hr' := hr s1 hl.1
+      simp only [bind2]
+      cases h2 : evalExprWith leaf s1 er with
+      | ok q =>
+        obtain ⟨rv, s2⟩ := q
+        rw [h2] at hr'
+        cases dr with
+        | ok R =>
+          simp only [CorrL] at hr'
+          have := applyBin_corr op hl.2 hr'.2
+          simp only
+          cases h3 : applyBin op lv rv <;> cases h4 : refOp op L R <;> rw [h3, h4] at this <;>
+            simp only [CorrV] at this <;> simp only [CorrL]
+          · exact ⟨hr'.1, this⟩
+          · exact this
+        | err e => simp [CorrL] at hr'
+        | panic p => simp [CorrL] at hr'
+        | fuelOut => simp [CorrL] at hr'
+      | err e =>
+        rw [h2] at hr'
+        cases dr <;> simp only [CorrL] at hr' ⊢
+        exact hr'
+      | panic p => rw [h2] at hr'; cases dr <;> simp [CorrL] at hr'
+      | fuelOut => rw [h2] at hr'; cases dr <;> simp [CorrL] at hr'
+    | err e => simp [CorrL] at hl
+    | panic p => simp [CorrL] at hl
+    | fuelOut => simp [CorrL] at hl
+  | err e =>
+    rw [h1] at hl
+    cases dl <;> simp only [CorrL] at hl ⊢
+    simp only [bind2, CorrL]
+    exact hl
+  | panic p => rw [h1] at hl; cases dl <;> simp [CorrL] at hl
+  | fuelOut => rw [h1] at hl; cases dl <;> simp [CorrL] at hl
+
+theorem neg_corr (e : Expr) (d : Outcome EvalErr RVal) (s : Store)
+    (h : CorrL I (evalExprWith leaf s e) d) :
+    CorrL I (evalExprWith leaf s (.neg e)) (d.map' RVal.neg) := by
+  rw [evalExprWith]
+  cases h1 : evalExprWith leaf s e with
+  | ok p =>
+    obtain ⟨v, s1⟩ := p
+    rw [h1] at h
+    cases d <;> simp only [CorrL] at h
+    simp only [Outcome.map', CorrL]
+    exact ⟨h.1, negate_corr h.2⟩
+  | err e => rw [h1] at h; cases d <;> simp only [CorrL] at h; simp only [Outcome.map', CorrL]; exact h
+  | panic p => rw [h1] at h; cases d <;> simp [CorrL] at h
+  | fuelOut => rw [h1] at h; cases d <;> simp [CorrL] at h
+
+variable (H : ∀ s v c, I s → CorrL I (leaf s v c) (denLeaf ρ v c))
+include H
+
+mutual
+theorem addE_corr : ∀ (a : AddE) (s : Store), I s → CorrL I (evalExprWith leaf s a.toExpr) (a.den ρ)
+  | .one m, s, hs => by
+    simp only [AddE.toExpr, AddE.den]; exact mulE_corr m s hs
+  | .add l r, s, hs => by
+    simp only [AddE.toExpr, AddE.den]
+    exact bin_corr leaf I .add _ _ _ _ s (addE_corr l s hs) (fun s1 h1 => mulE_corr r s1 h1)
+  | .sub l r, s, hs => by
+    simp only [AddE.toExpr, AddE.den]
+    exact bin_corr leaf I .sub _ _ _ _ s (addE_corr l s hs) (fun s1 h1 => mulE_corr r s1 h1)
+theorem mulE_corr : ∀ (m : MulE) (s : Store), I s → CorrL I (evalExprWith leaf s m.toExpr) (m.den ρ)
+  | .one u, s, hs => by
+    simp only [MulE.toExpr, MulE.den]; exact unaryE_corr u s hs
+  | .mul l r, s, hs => by
+    simp only [MulE.toExpr, MulE.den]
+    exact bin_corr leaf I .mul _ _ _ _ s (mulE_corr l s hs) (fun s1 h1 => unaryE_corr r s1 h1)
+  | .div l r, s, hs => by
+    simp only [MulE.toExpr, MulE.den]
+    exact bin_corr leaf I .div _ _ _ _ s (mulE_corr l s hs) (fun s1 h1 => unaryE_corr r s1 h1)
+theorem unaryE_corr : ∀ (u : UnaryE) (s : Store), I s → CorrL I (evalExprWith leaf s u.toExpr) (u.den ρ)
+  | .pos v, s, hs => by
+    simp only [UnaryE.toExpr, UnaryE.den]
+    rw [evalExprWith]; exact valueE_corr v s hs
+  | .neg v, s, hs => by
+    simp only [UnaryE.toExpr, UnaryE.den]
+    apply neg_corr
+    rw [evalExprWith]; exact valueE_corr v s hs
+theorem valueE_corr : ∀ (v : ValueE) (s : Store), I s → CorrL I (evalVExprWith leaf s v.toVExpr) (v.den ρ)
+  | .amt value commodity, s, hs => by
+    simp only [ValueE.toVExpr, ValueE.den]
+    rw [evalVExprWith]; exact H s value commodity hs
+  | .paren a, s, hs => by
+    simp only [ValueE.toVExpr, ValueE.den]
+    rw [evalVExprWith]; exact addE_corr a s hs
+end
+
+end
+
+/-! ## C08_eval — the two evaluators of `report/eval.rs` -/
+
+theorem rel_leaf (k : String) (r : Rat) :
+    Rel (.commodities [(k, r)]) (.com [k] fun c => if c = k then r else 0) := by
+  simp only [Rel]
+  refine ⟨by simp [AMap.WF, AMap.keys], by intro c; simp [AMap.keys], ?_⟩
+  intro c
+  rw [getPart_cons, getPart_nil]
+  by_cases h : k = c
+  · subst h; simp
+  · simp [h, Ne.symm h]
+
+theorem leafRo_corr (s0 : Store) (s : Store) (v : PDec) (c : String) (hs : s = s0) :
+    CorrL (fun s => s = s0) (leafRo s v c) (denLeaf s0.resolve v c) := by
+  subst hs
+  unfold leafRo denLeaf
+  by_cases hc : c.isEmpty = true
+  · simp [hc, CorrL, Rel]
+  · simp only [hc, Bool.false_eq_true, if_false]
+    cases h : s.resolve c with
+    | none => simp [CorrL]
+    | some k => simp only [CorrL, true_and]; exact rel_leaf k _
+
+/-- **C08_eval** (read-only evaluator, `Evaluable::eval`, used by `Ledger::eval`): for every stratified tree and
+every commodity store the model evaluator returns exactly the reference denotation — the same number, or the
+same quantity of every commodity and the same set of commodities, or the same error. -/
+theorem C08_eval (s : Store) (v : ValueE) : CorrV (evalRo s v.toVExpr) (v.den s.resolve) := by
+  have h := valueE_corr leafRo s.resolve (fun s' => s' = s) (fun s' v c hs => leafRo_corr s s' v c hs) v s rfl
+  unfold evalRo
+  cases h1 : evalVExprWith leafRo s v.toVExpr with
+  | ok p =>
+    obtain ⟨x, s'⟩ := p
+    rw [h1] at h
+    cases h2 : v.den s.resolve <;> rw [h2] at h <;> simp only [CorrL] at h <;> simp only [Outcome.map', CorrV]
+    exact h.2
+  | err e =>
+    rw [h1] at h
+    cases h2 : v.den s.resolve <;> rw [h2] at h <;> simp only [CorrL] at h <;> simp only [Outcome.map', CorrV]
+    exact h
+  | panic p => rw [h1] at h; cases h2 : v.den s.resolve <;> rw [h2] at h <;> simp [CorrL] at h
+  | fuelOut => rw [h1] at h; cases h2 : v.den s.resolve <;> rw [h2] at h <;> simp [CorrL] at h
+
+theorem resolve_none_iff (s : Store) (n : String) : s.resolve n = none ↔ AMap.get? s.recs n = none := by
+  unfold Store.resolve
+  cases AMap.get? s.recs n with
+  | none => simp
+  | some o => cases o <;> simp
+
+/-- registering a commodity does not change what any name resolves to -/
+theorem ensure_stable (s : Store) (n c : String) : ((s.ensure n).2.ensure c).1 = (s.ensure c).1 := by
+  unfold Store.ensure
+  cases hn : s.resolve n with
+  | some k => simp
+  | none =>
+    simp only
+    have hg := (resolve_none_iff s n).1 hn
+    by_cases hc : n = c
+    · subst hc
+      have : Store.resolve ⟨AMap.insert s.recs n none⟩ n = some n := by
+        simp [Store.resolve, AMap.get?_insert]
+      simp [this, hn]
+    · have : Store.resolve ⟨AMap.insert s.recs n none⟩ c = s.resolve c := by
+        simp [Store.resolve, AMap.get?_insert, hc]
+      rw [this]
+      cases s.resolve c <;> simp
+
+/-- what a name denotes under the registering evaluator: its canonical name if known, itself otherwise -/
+def ensured (s : Store) (c : String) : Option String := some (s.ensure c).1
+
+theorem leafMut_corr (s0 s : Store) (v : PDec) (c : String) (hs : ∀ n, (s.ensure n).1 = (s0.ensure n).1) :
+    CorrL (fun s => ∀ n, (s.ensure n).1 = (s0.ensure n).1) (leafMut s v c) (denLeaf (ensured s0) v c) := by
+  unfold leafMut denLeaf ensured
+  by_cases hc : c.isEmpty = true
+  · simp only [hc, if_true, CorrL, Rel]
+    exact ⟨hs, trivial⟩
+  · simp only [hc, Bool.false_eq_true, if_false, CorrL]
+    refine ⟨?_, ?_⟩
+    · intro n; rw [ensure_stable, hs]
+    · rw [← hs c]; exact rel_leaf _ _
+
+/-- **C08_eval_mut** (registering evaluator, `Evaluable::eval_mut`, used for posting amounts, costs, lot prices and
+balance assertions): the same, for every store; the threaded store keeps resolving every name as before. -/
+theorem C08_eval_mut (s : Store) (v : ValueE) :
+    CorrL (fun s' => ∀ n, (s'.ensure n).1 = (s.ensure n).1) (evalMut s v.toVExpr) (v.den (ensured s)) :=
+  valueE_corr leafMut (ensured s) _ (fun s' v c hs => leafMut_corr s s' v c hs) v s (fun _ => rfl)
+
+/-! ## C08_typing — each ill-typed shape is an error with the right kind, never a value -/
+
+section
+variable (leaf : Store → PDec → String → Outcome EvalErr (Evaluated String × Store))
+
+theorem bin_eval {op : BinOp} {l r : Expr} {s s1 s2 : Store} {lv rv : Evaluated String}
+    (hl : evalExprWith leaf s l = .ok (lv, s1)) (hr : evalExprWith leaf s1 r = .ok (rv, s2)) :
+    evalExprWith leaf s (.bin op l r) = (applyBin op lv rv).map' (fun v => (v, s2)) := by
+  rw [evalExprWith, hl]; simp only; rw [hr]; simp only
+  cases applyBin op lv rv <;> rfl
+
+/-- number ± amount and amount ± number -/
+theorem C08_typing_addsub {op : BinOp} (hop : op = .add ∨ op = .sub) {l r : Expr} {s s1 s2 : Store}
+    {lv rv : Evaluated String}
+    (hl : evalExprWith leaf s l = .ok (lv, s1)) (hr : evalExprWith leaf s1 r = .ok (rv, s2))
+    (hmixed : (∃ x a, lv = .number x ∧ rv = .commodities a) ∨ (∃ a x, lv = .commodities a ∧ rv = .number x)) :
+    evalExprWith leaf s (.bin op l r) = .err .unmatchingOperation := by
+  rw [bin_eval leaf hl hr]
+  rcases hop with h | h <;> subst h <;> rcases hmixed with ⟨x, a, h1, h2⟩ | ⟨a, x, h1, h2⟩ <;> subst h1 <;> subst h2 <;> rfl
+
+/-- amount × amount -/
+theorem C08_typing_mul {l r : Expr} {s s1 s2 : Store} {a b : Amount String}
+    (hl : evalExprWith leaf s l = .ok (.commodities a, s1)) (hr : evalExprWith leaf s1 r = .ok (.commodities b, s2)) :
+    evalExprWith leaf s (.bin .mul l r) = .err .unmatchingOperation := by
+  rw [bin_eval leaf hl hr]; rfl
+
+/-- anything / zero (a zero number, a zero amount, an amount whose every entry is zero, the empty amount) -/
+theorem C08_typing_div_zero {l r : Expr} {s s1 s2 : Store} {lv rv : Evaluated String}
+    (hl : evalExprWith leaf s l = .ok (lv, s1)) (hr : evalExprWith leaf s1 r = .ok (rv, s2)) (hz : rv.isZero = true) :
+    evalExprWith leaf s (.bin .div l r) = .err .divideByZero := by
+  rw [bin_eval leaf hl hr]; simp [applyBin, Evaluated.checkDiv, hz, Outcome.map']
+
+/-- amount / amount -/
+theorem C08_typing_div_amounts {l r : Expr} {s s1 s2 : Store} {a b : Amount String}
+    (hl : evalExprWith leaf s l = .ok (.commodities a, s1)) (hr : evalExprWith leaf s1 r = .ok (.commodities b, s2)) :
+    evalExprWith leaf s (.bin .div l r) = .err .unmatchingOperation ∨
+    evalExprWith leaf s (.bin .div l r) = .err .divideByZero := by
+  rw [bin_eval leaf hl hr]
+  simp only [applyBin, Evaluated.checkDiv]
+  by_cases hz : (Evaluated.commodities b).isZero = true
+  · right; simp [hz, Outcome.map']
+  · left; simp [hz, Outcome.map']
+
+/-- number / multi-commodity amount -/
+theorem C08_typing_div_multi {l r : Expr} {s s1 s2 : Store} {x : Rat} {b : Amount String}
+    (hl : evalExprWith leaf s l = .ok (.number x, s1)) (hr : evalExprWith leaf s1 r = .ok (.commodities b, s2))
+    (hmulti : 2 ≤ b.length) :
+    evalExprWith leaf s (.bin .div l r) = .err .singleAmountRequired ∨
+    evalExprWith leaf s (.bin .div l r) = .err .divideByZero := by
+  rw [bin_eval leaf hl hr]
+  simp only [applyBin, Evaluated.checkDiv]
+  by_cases hz : (Evaluated.commodities b).isZero = true
+  · right; simp [hz, Outcome.map']
+  · left
+    match b, hmulti with
+    | _ :: _ :: _, _ => simp [hz, Amount.toSingle, Outcome.map']
+
+end
+
+/-- **C08_typing**, at the level of the statement: whenever the reference denotation of a stratified tree is an
+error (an ill-typed operation, a division by zero, an unknown commodity), the evaluator returns that error
+and no value; whenever the evaluator returns a value, the denotation is defined and equal to it. -/
+theorem C08_typing (s : Store) (v : ValueE) (e : EvalErr) (h : v.den s.resolve = .err e) :
+    evalRo s v.toVExpr = .err e := by
+  have := C08_eval s v
+  rw [h] at this
+  cases h1 : evalRo s v.toVExpr <;> rw [h1] at this <;> simp only [CorrV] at this
+  rw [this]
+
+/-! ## C08_single / C08_posting / C08_amount — where a single amount is required -/
+
+/-- **C08_single**: `SingleAmount::try_from` succeeds only on an amount with exactly one entry, and returns it. -/
+theorem C08_single (amt : Amount String) (sa : SingleAmount String) (h : amt.toSingle = .ok sa) :
+    amt = [(sa.commodity, sa.value)] := by
+  match amt, h with
+  | [(c, v)], h => simp [Amount.toSingle] at h; subst h; rfl
+
+/-- **C08_posting**: `PostingAmount::try_from` succeeds only on amounts with at most one entry. -/
+theorem C08_posting (amt : Amount String) (p : PostingAmt String) (h : amt.toPosting = .ok p) :
+    amt.length ≤ 1 ∧ p.toAmount = amt := by
+  match amt, h with
+  | [], h => simp [Amount.toPosting] at h; subst h; simp [PostingAmt.toAmount]
+  | [(c, v)], h => simp [Amount.toPosting] at h; subst h; simp [PostingAmt.toAmount]
+
+/-- a non-zero bare number is not an amount: posting amount, single amount and `Ledger::eval` all reject it -/
+theorem C08_amount (n : Rat) (hn : n ≠ 0) :
+    (Evaluated.number n : Evaluated String).toAmount = .err .amountRequired ∧
+    (Evaluated.number n : Evaluated String).toPosting = .err .amountRequired ∧
+    (Evaluated.number n : Evaluated String).toSingle = .err .amountRequired := by
+  simp [Evaluated.toAmount, Evaluated.toPosting, Evaluated.toSingle, hn]
+
+/-- a bare zero is the empty amount: admissible as a posting amount, not as a single amount (cost, lot price) -/
+theorem C08_zero :
+    (Evaluated.number 0 : Evaluated String).toPosting = .ok .zero ∧
+    (Evaluated.number 0 : Evaluated String).toSingle = .err .singleAmountRequired := by
+  simp [Evaluated.toAmount, Evaluated.toPosting, Evaluated.toSingle, Amount.toPosting, Amount.toSingle]
+
+/-- **C08_multi**: a value whose denotation mentions two different commodities (a multi-commodity sum, even with
+zero quantities) is rejected both as a single amount and as a posting amount. -/
+theorem C08_multi (x : Evaluated String) (ks : List String) (f : String → Rat) (h : Rel x (.com ks f))
+    (c1 c2 : String) (h1 : c1 ∈ ks) (h2 : c2 ∈ ks) (hne : c1 ≠ c2) :
+    x.toSingle = .err .singleAmountRequired ∧ x.toPosting = .err .postingAmountRequired := by
+  cases x with
+  | number r => simp [Rel] at h
+  | commodities a =>
+    simp only [Rel] at h
+    obtain ⟨hw, hk, _⟩ := h
+    have m1 := (hk c1).2 h1
+    have m2 := (hk c2).2 h2
+    match a, m1, m2 with
+    | [], m1, _ => simp [AMap.keys] at m1
+    | [(c, v)], m1, m2 =>
+      simp [AMap.keys] at m1 m2
+      exact absurd (m1.trans m2.symm) hne
+    | _ :: _ :: _, _, _ =>
+      simp [Evaluated.toSingle, Evaluated.toPosting, Evaluated.toAmount, Amount.toSingle, Amount.toPosting]
+
+/-! ## Non-vacuity -/
+
+/-- a concrete ill-typed tree: `(3 A + 2)`; its denotation is the error, so is the evaluation -/
+example : (ValueE.paren (.add (.one (.one (.pos (.amt ⟨false, 3, 0, none⟩ "A")))) (.one (.pos (.amt ⟨false, 2, 0, none⟩ ""))))).den
+    (fun c => some c) = .err .unmatchingOperation := by
+  simp [ValueE.den, AddE.den, MulE.den, UnaryE.den, denLeaf, bind2, RVal.add]
+
+/-- the hypotheses of `C08_multi` are satisfiable: `1 A + 2 B` -/
+example : Rel (.commodities [("A", 1), ("B", 2)]) (.com ["A", "B"] fun c => if c = "A" then 1 else if c = "B" then 2 else 0) := by
+  simp only [Rel]
+  refine ⟨by simp [AMap.WF, AMap.keys], by intro c; simp [AMap.keys], ?_⟩
+  intro c
+  rw [getPart_cons, getPart_cons, getPart_nil]
+  by_cases h1 : "A" = c
+  · subst h1; simp
+  · by_cases h2 : "B" = c
+    · subst h2; simp
+    · simp [h1, h2, Ne.symm h1, Ne.symm h2]
+
+/-- `C08_single` is not vacuous -/
+example : Amount.toSingle [("A", (3 : Rat))] = .ok ⟨3, "A"⟩ := rfl
+
+end Okane.C08
